@@ -114,12 +114,16 @@ def run_case(case: dict, want_lines: bool = True) -> dict:
                 continue  # not applicable (after shrinking): skipped on every side
             if kind == "addr":
                 seen = set()
-                for sp in P.comp_specs(op):
-                    k = S.lean_key(sp)
-                    if k not in seen:
-                        seen.add(k)
-                        lines.append(P.env_line(sp))
-                        impl.append(None)
+                try:
+                    for sp in P.comp_specs(op):
+                        k = S.lean_key(sp)
+                        if k not in seen:
+                            seen.add(k)
+                            lines.append(P.env_line(sp))
+                            impl.append(None)
+                except Exception as e:  # noqa: BLE001
+                    bad.append((f"construct-raises:{op['cls']}", f"{op['cls']} raised {type(e).__name__} for admissible parameters {op['params']}: {e!s}"[:300]))
+                    break
             status = P.impl_edit(ps, op)
             hist.append(kind)
             lines.append(P.edit_line(op))
@@ -131,7 +135,11 @@ def run_case(case: dict, want_lines: bool = True) -> dict:
             if status != "ok":
                 bad.append((f"edit-raises:{kind}", f"{kind} raised {status} on an admissible edit: {P.edit_line(op)}"))
                 break
-            bad += oracle_state(ps, sh, kind)
+            try:
+                bad += oracle_state(ps, sh, kind)
+            except Exception as e:  # noqa: BLE001
+                bad.append((f"state-after-{kind}:raises", f"reading the public views after {P.edit_line(op)} raised {type(e).__name__}: {e!s}"[:300]))
+                break
             continue
         if not sh.vars:
             continue
